@@ -52,6 +52,12 @@ def gen_params(rng, idx, tier="quick", force=None):
         # group consumer: subscribe() only after start() returned, so that the member's FIRST join (member id not yet
         # known) is in flight while stop points are taken
         "late_subscribe": rng.random() < 0.35,
+        # group consumer: the n-th Heartbeat / OffsetCommit is answered with a NON-retriable error (group authorization
+        # revoked): the background task that sent it ends with that error, which waits for the application's next poll
+        "fatal_group_error": ({"api": rng.choice(["Heartbeat", "Heartbeat", "OffsetCommit"]), "nth": rng.randint(1, 4)}
+                              if rng.random() < 0.3 else None),
+        # the application polls only now and then (sleeps this long between getmany() calls)
+        "poll_pause": rng.choice([0.01, 0.01, 0.5, 2.0]),
         "stop_at_event": None,
         "unreachable_from_event": None,             # when the cluster state change happens (event index); None = with stop
     }
@@ -82,6 +88,18 @@ def run_history(P):
                      default_kinds=["drop_before", "reset_after", "lose_reply", "delay"])
     plan.enabled = False
     cl.faults = plan
+    fge = P.get("fatal_group_error") if P["workload"] == "group_consumer" else None
+    fge_state = {"seen": 0, "fired_ev": None}
+    if fge:
+        def pred(ctx):
+            if ctx["api"] != fge["api"] or ctx.get("client_id") != "client":
+                return False
+            fge_state["seen"] += 1
+            if fge_state["seen"] == fge["nth"]:
+                fge_state["fired_ev"] = getattr(net.loop, "events", None)
+                return True
+            return False
+        plan.script(pred, C.Fate("error", C.GROUP_AUTHORIZATION_FAILED), once=True)
     H = {"params": P, "events": [], "errors": [], "stop": {}, "leftovers": None, "after": {}}
     ev = H["events"]
 
@@ -162,7 +180,7 @@ def run_history(P):
                         return
                     except KafkaError:
                         await asyncio.sleep(0.05)
-                    await asyncio.sleep(0.01)
+                    await asyncio.sleep(P.get("poll_pause", 0.01))
 
             async def feeder():
                 while not stopping["flag"]:
@@ -396,6 +414,7 @@ def run_history(P):
                 jw.append((open_at, e["ev"]))
                 open_at = None
     H["join_windows"] = jw
+    H["fatal_group_error_at_event"] = fge_state["fired_ev"]
     H["fault_hits"] = dict(plan.hits)
     H["sim_errors"] = [e for e in cl.events if e["kind"] in ("SIM_ENCODE_ERROR", "undecodable_request", "bad_header",
                                                               "unsupported_request")]
